@@ -8,6 +8,7 @@ import (
 	"runtime"
 	"strings"
 	"sync"
+	"time"
 
 	cose "github.com/veraison/go-cose"
 )
@@ -177,6 +178,22 @@ func runC18(c *Collector, r *Rng, thorough bool) {
 			}})
 			_ = envCopy
 		}
+		// --- the caller's Headers given to SignHashEnvelope are a template: signing from it, once or from several
+		// goroutines, leaves it as it was (also when its maps are empty but not nil, as NewSign1Message().Headers) ---
+		{
+			tmpl := cose.Headers{Protected: cose.ProtectedHeader{}, Unprotected: cose.UnprotectedHeader{}}
+			if i%2 == 1 {
+				tmpl = cose.Headers{Protected: cose.ProtectedHeader{int64(4): []byte("kid")}, Unprotected: cose.UnprotectedHeader{}}
+			}
+			sgr := k.signer()
+			entropy := &yieldingReader{r: r.Fork()} // safe for concurrent use
+			vals = append(vals, shared{"hashenvelope-template/" + k.alg.String(), func() string { rp, p, ru, u := cHeaders(&tmpl); return rp + p + ru + u }, []func() string{
+				func() string {
+					_, err := cose.SignHashEnvelope(entropy, sgr, tmpl, cose.HashEnvelopePayload{HashAlgorithm: cose.AlgorithmSHA256, HashValue: make([]byte, 32), Location: "loc"})
+					return res(nil, err)
+				},
+			}})
+		}
 		// --- COSE_Key ---
 		if ck, err := cose.NewKeyFromPrivate(k.priv); err == nil {
 			vals = append(vals, shared{"key/" + k.alg.String(), func() string { return snapshotKey(ck) }, []func() string{
@@ -285,6 +302,49 @@ func runC18(c *Collector, r *Rng, thorough bool) {
 			}
 			if after := sv.snap(); after != before {
 				c.Fail("C18/modified-by-read", sv.name+": concurrent Verify/MarshalCBOR modified the value", map[string]any{"value": sv.name, "before": trunc(before, 600), "after": trunc(after, 600)})
+			}
+		}
+		// --- when SignMessage.Verify has returned, it has finished: no verifier is consulted afterwards (the caller may
+		// reuse the message), and after a failure at position 0 the later verifiers were not consulted at all ---
+		{
+			var mu sync.Mutex
+			returned := false
+			lateCalls, laterCalls := 0, 0
+			mk := func(pos int, fail bool) cose.Verifier {
+				return &hookVerifier{alg: k.alg, f: func() error {
+					if pos > 0 {
+						time.Sleep(15 * time.Millisecond)
+					}
+					mu.Lock()
+					if returned {
+						lateCalls++
+					}
+					if pos > 0 {
+						laterCalls++
+					}
+					mu.Unlock()
+					if fail {
+						return cose.ErrVerification
+					}
+					return nil
+				}}
+			}
+			tm := &cose.SignMessage{Headers: cose.Headers{Protected: cose.ProtectedHeader{}}, Payload: []byte("payload")}
+			for q := 0; q < 3; q++ {
+				tm.Signatures = append(tm.Signatures, &cose.Signature{Headers: cose.Headers{Protected: cose.ProtectedHeader{cose.HeaderLabelAlgorithm: k.alg}}, Signature: []byte{byte(q + 1)}})
+			}
+			verr := tm.Verify(nil, mk(0, true), mk(1, false), mk(2, false))
+			mu.Lock()
+			returned = true
+			mu.Unlock()
+			tm.Payload[0] ^= 0xff // the caller reuses the message
+			time.Sleep(60 * time.Millisecond)
+			mu.Lock()
+			lc, ll := lateCalls, laterCalls
+			mu.Unlock()
+			c.Eval("verify-has-finished-when-it-returns/"+k.alg.String(), fmt.Sprint(i), true)
+			if verr == nil || lc > 0 || ll > 0 {
+				c.Fail("C18/verify-still-running-after-return", fmt.Sprintf("SignMessage.Verify returned %v after the failure of verifier 0; verifiers 1 and 2 were consulted %d times, %d of them after Verify had returned", verr, ll, lc), map[string]any{"alg": k.alg.String()})
 			}
 		}
 		// --- unrelated COSE_Keys used by different goroutines at the same time (each goroutine its own keys, with
@@ -440,6 +500,19 @@ func runC19(c *Collector, r *Rng, thorough bool) {
 		refCheck(fmt.Sprintf("after decoding chains of %d nested countersignatures", depth))
 	}
 	defer refCheck("at the end of the run")
+	// ... nor on what other goroutines decode at the same time (each into its own variables): child process
+	{
+		var concIn []string
+		for _, in := range refIn {
+			concIn = append(concIn, "DSign1 "+hx(in))
+		}
+		for q := 0; q < 40; q++ {
+			kind := kinds[q%len(kinds)]
+			t := genTreeOfKind(r, kind, GenCfg{MaxEntries: 6, ValDepth: 2, Csig: 1, Tags: true})
+			concIn = append(concIn, kind+" "+hx(t.Ser()))
+		}
+		concurrentDecoders(c, "C19/concurrent-decoders", concIn)
+	}
 	for i := 0; i < n; i++ {
 		kind := kinds[i%len(kinds)]
 		steps := 2 + r.Intn(7)
@@ -816,3 +889,12 @@ func newDest(kind string) *dest {
 	}
 	panic("kind")
 }
+
+// hookVerifier: a Verifier whose verdict comes from a function
+type hookVerifier struct {
+	alg cose.Algorithm
+	f   func() error
+}
+
+func (h *hookVerifier) Algorithm() cose.Algorithm        { return h.alg }
+func (h *hookVerifier) Verify(content, sig []byte) error { return h.f() }
